@@ -596,6 +596,9 @@ static int c07_main(int argc,char **argv){
         printf("rawseekto rc=%s tell=%lld state=%d link=%d\n",ovname(rc),(long long)ov_pcm_tell(vf),vf->ready_state,vf->ready_state>=STREAMSET?vf->current_link:-1);
       }else if(!strncmp(op,"rawseek",7)||!strncmp(op,"pcmseekpage",11)||!strncmp(op,"pcmseek",7)){
         ogg_int64_t pos=atoll(tok[2]); int lap=(strstr(op,"lap")!=NULL); int rc;
+        if(tok[2][0]=='g'){ /* g<i>m<back>: <back> samples before the granule position of page <i> of the physical stream (single-link streams) */
+          static c7_seg sg[4096]; int nn=c7_segments(&c7_phys,sg,4096),kk,npg=0; long want=atol(tok[2]+1); const char *mm=strchr(tok[2],'m'); long back=mm?atol(mm+1):0; pos=0;
+          for(kk=0;kk<nn;kk++)if(sg[kk].ispage){ if(npg==want&&sg[kk].len>=27){ unsigned char *pg=c7_phys.p+sg[kk].off; long long g=0; int b; for(b=7;b>=0;b--)g=(g<<8)|pg[6+b]; pos=g-back; } npg++; } }
         ogg_int64_t oldpos=ov_pcm_tell(vf); int oldlink=(vf->seekable&&vf->ready_state>=STREAMSET)?vf->current_link:-1; int ohs=ov_halfrate_p(vf)>0;
         int on=(oldlink>=0&&vf->vi)?(vorbis_info_blocksize(vf->vi+oldlink,0)>>(1+ohs)):0; int och=(oldlink>=0&&vf->vi)?vf->vi[oldlink].channels:0;
         int pend=H->lap_valid||H->stale; /* the audio at the old position is itself still cross-faded, or the decoder is ahead of the position (after ov_crosslap) */
